@@ -107,6 +107,10 @@ class ClassBlockState(BaseState[T, PT]):
     #: modifiers to apply to following variables
     mods: ParsedTypeModifiers
 
+    #: cv-qualifiers to apply to the type of following variables
+    const: bool
+    volatile: bool
+
     def __init__(
         self,
         parent: typing.Optional["State"],
@@ -115,12 +119,16 @@ class ClassBlockState(BaseState[T, PT]):
         access: str,
         typedef: bool,
         mods: ParsedTypeModifiers,
+        const: bool = False,
+        volatile: bool = False,
     ) -> None:
         super().__init__(parent, location)
         self.class_decl = class_decl
         self.access = access
         self.typedef = typedef
         self.mods = mods
+        self.const = const
+        self.volatile = volatile
 
     def _set_access(self, access: str) -> None:
         self.access = access
